@@ -11,13 +11,16 @@ class C12(Check):
     module = 'Xrl.Props.C12'
     namespace = 'Xrl.C12'
     functions = sorted(FNS)
-    assumptions = ['exact-arithmetic identities over the reals; the floating-point cancellation of CS_KN at low energy is a KNOWN FINDING (known_findings.txt), classified by the envelope 64 eps/a^3',
+    assumptions = ['exact-arithmetic identities over the reals; in doubles CS_KN is compared with the specification at 1e-13 relative and with the quadrature of the library\'s own DCS_KN at 1e-9 '
+                   '(the low-energy cancellation of the closed form was repaired in /repo, known_findings.txt: fixed)',
                    'the generated CS_KN carries the double literal 3.141592653589793 for PI; cs_kn_is_integral is stated with the factor pi/PI_lit and |pi/PI_lit - 1| < 1e-15 is proved']
 
     def grid(self, ctx):
         if hasattr(ctx, '_g12'): return ctx._g12
         n = 25 if ctx.tier == 'quick' else 121
         Es = [10 ** (-6 + 12 * i / (n - 1)) for i in range(n)] + [0.0, -1.0, -1e-300]
+        sw = 0.02 * 510.998928           # the series/closed-form switch of CS_KN
+        Es += [sw, math.nextafter(sw, 0), math.nextafter(sw, 1e9), sw * (1 - 1e-9), sw * (1 + 1e-9), 10.2199, 10.22, 5.0, 0.5, 0.03]
         th = [0.0, math.pi / 2, math.pi, -0.3, -math.pi, 2 * math.pi + 0.1, 7.5, 1e-9, 1.234]
         ph = [0.0, math.pi / 2, math.pi, -1.0, 6.9]
         r = ctx.rng
@@ -46,27 +49,17 @@ class C12(Check):
         except core.BuildError: return 0, [], {'rule': 'specification driver unavailable'}
         viol = []; stats = {}; low = 0.0; nontriv = set()
         MEC2 = 510.998928; EPS = 2.220446049250313e-16
-        K_CANCEL = 'scattering.c:241 CS_KN cancellation at low energy'
-        def cancellation(E, d):
-            """the closed form of CS_KN subtracts O(1) terms to get an O(a^2) bracket and divides by a^3 (a = E/mc2): rounding alone explains a
-            relative error up to ~eps/a^3.  A deviation inside that envelope at a < 0.02 is the known defect; anything larger is new."""
-            a = E / MEC2
-            return a < 0.02 and d <= 64 * EPS / a ** 3
         for (fn, args), cl, co, eo in zip(g, clines, c, e):
             if eo.startswith('value'): nontriv.add(cl)
             pc = core.parse_answer(co)
-            if not core.expect_agrees(co, eo, rel=1e-9, stats=stats):
-                key = cl
-                if fn == 'CS_KN' and eo.startswith('value') and pc['kind'] == 'ok' and pc['slot'] == 'E' and math.isfinite(pc['vals'][0]):
-                    v = unhx(eo.split(' ')[1]); d = abs(pc['vals'][0] - v) / abs(v) if v else float('inf')
-                    low = max(low, d)
-                    if cancellation(args[0], d): key = K_CANCEL
-                viol.append(dict(key=key, got=co, expected=eo, what='closed form: library vs textbook formula (%s)' % cl))
+            if not core.expect_agrees(co, eo, rel=1e-13 if fn == 'CS_KN' else 1e-9, stats=stats):
+                viol.append(dict(key=cl, got=co, expected=eo, what='closed form: library vs textbook formula (%s)' % cl))
+            if fn == 'CS_KN' and eo.startswith('value') and pc['kind'] == 'ok' and pc['slot'] == 'E' and math.isfinite(pc['vals'][0]):
+                v = unhx(eo.split(' ')[1]); low = max(low, abs(pc['vals'][0] - v) / abs(v) if v else float('inf'))
             # physical bounds stated by the property, checked directly on the library's numbers
             if pc['kind'] == 'ok' and pc['slot'] == 'E' and fn in ('DCS_Thoms', 'DCS_KN', 'CS_KN', 'ComptonEnergy'):
                 if not (pc['vals'][0] > 0 and math.isfinite(pc['vals'][0])) and args[0] < 1e290:
-                    key = K_CANCEL if (fn == 'CS_KN' and args[0] / MEC2 < 1e-4) else cl       # below a ~ 1e-4 the envelope eps/a^3 exceeds 1: any sign is rounding
-                    viol.append(dict(key=key, got=co, expected='finite and > 0', what='positivity/finiteness (%s)' % cl))
+                    viol.append(dict(key=cl, got=co, expected='finite and > 0', what='positivity/finiteness (%s)' % cl))
         # ---- the integral clauses by numerical quadrature over the LIBRARY's own differential forms (independent of the closed-form spec):
         #      CS_KN(E) = 2 pi * int_0^pi DCS_KN(E, t) sin t dt   (composite 11 x 16-point Gauss-Legendre);  DCS_KN(E, t) = mean over phi of DCSP_KN(E, t, phi)
         #      (16-point periodic trapezoid: exact for the cos^2(phi) dependence);  CS_KN <= Thomson total and -> Thomson as E -> 0
@@ -103,7 +96,7 @@ class C12(Check):
             got = pc['vals'][0]
             d = abs(got - integ) / integ
             if d > 1e-9:
-                viol.append(dict(key=K_CANCEL if cancellation(E_, d) else 'CS_KN %s E' % hx(E_), got=repr(got), expected='%r = 2 pi int DCS_KN sin(theta) d theta (64-point Gauss-Legendre over the library\'s DCS_KN)' % integ,
+                viol.append(dict(key='CS_KN %s E' % hx(E_), got=repr(got), expected='%r = 2 pi int DCS_KN sin(theta) d theta (64-point Gauss-Legendre over the library\'s DCS_KN)' % integ,
                                  what='Klein-Nishina total vs the solid-angle integral of its differential form (CS_KN %s E)' % hx(E_)))
             elif got > THOMSON * (1 + 1e-9):
                 viol.append(dict(key='CS_KN %s E' % hx(E_), got=repr(got), expected='<= Thomson total %r' % THOMSON, what='Klein-Nishina total exceeds the Thomson total'))
@@ -120,15 +113,9 @@ class C12(Check):
             mean = sum(p_['vals'][0] for p_ in ps_) / 16
             if abs(mean - pu['vals'][0]) > 1e-10 * abs(pu['vals'][0]):
                 viol.append(dict(key='DCS_KN %s %s E' % (hx(E_), hx(t_)), got=repr(pu['vals'][0]), expected='%r = azimuthal mean of DCSP_KN' % mean, what='unpolarised differential cross section vs the azimuthal average of the polarised one'))
-        # de-duplicate the class-keyed known finding
-        seen_ = set(); out_ = []
-        for v in viol:
-            if v['key'] == K_CANCEL and K_CANCEL in seen_: continue
-            seen_.add(v['key']); out_.append(v)
-        viol = out_
         stats['quadrature_cases'] = nq
         stats.update(rule='7 closed-form functions x energies log-spaced 1e-6..1e6 keV (+0, negatives) x theta/phi grids incl. 0, pi/2, pi, negative, > 2pi and seeded angles; '
-                          'non-trivial = distinct calls with a value expected', distinct_nontrivial=len(nontriv), max_rel_dev_spec_lowE_CS_KN=low,
+                          'non-trivial = distinct calls with a value expected', distinct_nontrivial=len(nontriv), max_rel_dev_spec_CS_KN=low,
                      samples=[dict(call=clines[i], impl=c[i], expected=e[i]) for i in (0, len(g) // 2, len(g) - 1)])
         return len(g) + nq, viol, stats
 
